@@ -185,6 +185,10 @@ func loadProgram(dir string) (*Program, error) {
 						case "errors.New", "fmt.Errorf":
 							P.NonNilGlobals[gl] = true
 						}
+						// constructors (NewX) of the package that owns the variable (assumption, listed)
+						if _, isPtr := v.Type().Underlying().(*types.Pointer); isPtr && strings.HasPrefix(cal.Name(), "New") {
+							P.NonNilGlobals[gl] = true
+						}
 					}
 				case *ssa.Alloc, *ssa.MakeMap, *ssa.MakeInterface:
 					if mi, ok := v.(*ssa.MakeInterface); ok {
